@@ -5,7 +5,7 @@ from symx import strs
 from .common import Job
 
 BOUNDS = {"n": "symbolic over the whole range [0, 2^64) (forks over the 16 digit counts)",
-          "parsed strings": "symbolic strings of every length 1..16 over [0-9a-fA-F] (leading zeros, mixed case), "
+          "parsed strings": "symbolic strings of every length 1..16 over [0-9a-fA-F] (leading zeros, mixed case), zero-padded strings of length 17, 18, 20, "
                             "and lengths 1..3 over arbitrary bytes for the raise/accept behaviour",
           "string model": "<= 20 characters, 8-bit code points"}
 OUTSIDE = ["strings longer than 16 hex digits (values >= 2^64)", "non-ASCII digits accepted by int()",
@@ -87,7 +87,10 @@ def h_parse(c, L):
     ch = []
     for i in range(L):
         x = c.int("ch%d" % i, 48, 102)
-        c.assume(sx.Or(*[x == k for k in HEXCH]))
+        if i < L - 16:
+            c.assume(x == 48)            # zero padding beyond 16 digits (the value still fits 64 bits)
+        else:
+            c.assume(sx.Or(*[x == k for k in HEXCH]))
         ch.append(x)
     s = strs.SymStr(ch)
     try:
@@ -186,9 +189,9 @@ def h_conformance(seed=0):
 def jobs(tier, seed):
     js = [Job("roundtrip", "h_roundtrip", {}, {"max_paths": 5000}, weight=50),
           Job("conformance", "h_conformance", {"seed": seed}, {"direct": True}, weight=40)]
-    Ls = range(1, 17)
+    Ls = list(range(1, 17)) + [17, 18, 20]
     for L in Ls:
-        js.append(Job("parse[L=%d]" % L, "h_parse", {"L": L}, {"max_paths": 20000}, weight=L))
+        js.append(Job("parse[L=%d]" % L, "h_parse", {"L": L}, {"max_paths": 20000, "width": 72 if L <= 16 else 104}, weight=L))
     return js
 
 
